@@ -9,7 +9,8 @@
 //! (no limit / limit inside / limit outside the entitlement / unknown class), revoke (own key /
 //! another child's key / unknown key), a response payload sent as request}, before and after identity
 //! updates on both sides and across an implicit unsuspend; (B) the same for publication (list, publish
-//! in / outside the jail, update, withdraw, empty delta, a reply sent as request); (C) single-bit
+//! in the jail, update, withdraw, empty delta, a reply sent as request; publish / update / withdraw reaching into
+//! another publisher's base URI in every publisher state: no objects yet, with objects, after withdrawing everything); (C) single-bit
 //! corruption of three valid messages (signature, signed attributes / signer info, eContent and the
 //! rest); (D, on by default, `--local 0` to skip) the local shortcut: honest (`loc`), across an identity update of
 //! the local child, and with a contact naming another child's handle (`mallory`, finding F12a, fixed by /repo 1a6ebc01:
@@ -633,7 +634,7 @@ fn main() {
     let stats = json!({
         "scenario": "c12", "seed": args.seed, "tier": args.tier,
         "evaluations": out.w.total, "distinct_nontrivial": out.distinct.len(),
-        "rule": "one case per message fed to the real rfc6492 / rfc8181 (harness-built CMS; keys from the runtime's signer and from a second harness-owned KrillSigner): claimed sender x signing key {registered, another child's/publisher's, replaced identity, random} x recipient / URL x request kind, before and after identity updates on both sides and across an implicit unsuspend; then single-bit flips of valid messages (quick: positions sampled per region signature / signed attributes / eContent / rest; thorough: every bit) - TESTING of decoder and signature check, not proof; the local shortcut (honest child, identity update of a local child, the F12a contact and the F12b namesake CA which must be refused). non-trivial = the claimed sender is a registered child / publisher, so that the key decision is exercised; distinct = distinct (protocol, sender, recipient, signing key, request, flipped bit)",
+        "rule": "one case per message fed to the real rfc6492 / rfc8181 (harness-built CMS; keys from the runtime's signer and from a second harness-owned KrillSigner): claimed sender x signing key {registered, another child's/publisher's, replaced identity, random} x recipient / URL x request kind, before and after identity updates on both sides and across an implicit unsuspend, deltas reaching into another publisher's base URI in every publisher state (no objects yet / with objects / withdrew everything); then single-bit flips of valid messages (quick: positions sampled per region signature / signed attributes / eContent / rest; thorough: every bit) - TESTING of decoder and signature check, not proof; the local shortcut (honest child, identity update of a local child, the F12a contact and the F12b namesake CA which must be refused). non-trivial = the claimed sender is a registered child / publisher, so that the key decision is exercised; distinct = distinct (protocol, sender, recipient, signing key, request, flipped bit)",
         "stream_distribution": out.dist, "outcome_distribution": out.outcome_dist, "flip_region_distribution": ex.flip_dist,
         "flips_not_refused": ex.accepted_flips, "local8181_probe": ex.local8181_probe, "messages": ex.ua, "local": do_local,
         "samples": out.samples, "impl_failures": out.impl_failures, "evals": EVALS,
@@ -808,6 +809,15 @@ fn scenario(args: &Args, dir: &std::path::Path, out: &mut Out, ex: &mut Extra) {
     let mut rpre = observe_repo(&mut w, ver0);
     let obj_uri = |h: &str, name: &str| uri::Rsync::from_str(&format!("{RSYNC_JAIL}{h}/{name}")).unwrap();
     let content = |s: &str| Base64::from_content(s.as_bytes());
+    // deltas that reach into the base URI of the publisher `victim`: publish a new object there, replace and withdraw its object `name`
+    let foreign_deltas = |victim: &str, name: &str, _state: &str| -> Vec<(&'static str, publication::Message)> {
+        let theirs = content(&format!("{victim}-{name}-v2"));
+        let mut p = PublishDelta::empty(); p.add_publish(Publish::new(None, obj_uri(victim, "intruder.cer"), content("intruder")));
+        let mut u = PublishDelta::empty(); u.add_update(Update::new(None, obj_uri(victim, name), content("replaced by a stranger"), theirs.to_hash()));
+        let mut wd = PublishDelta::empty(); wd.add_withdraw(Withdraw::new(None, obj_uri(victim, name), theirs.to_hash()));
+        vec![("publish-in-other-jail", publication::Message::delta(p)), ("update-other-publishers-object", publication::Message::delta(u)),
+             ("withdraw-other-publishers-object", publication::Message::delta(wd))]
+    };
     let prounds = if thorough { 3 } else { 2 };
     for round in 0..prounds {
         let stream = format!("B{round}");
@@ -822,6 +832,9 @@ fn scenario(args: &Args, dir: &std::path::Path, out: &mut Out, ex: &mut Extra) {
             for (sk, sclass) in signers {
                 let a = format!("a{round}.cer"); let b = format!("b{round}.roa");
                 let mut msgs: Vec<(&str, publication::Message)> = vec![("list", publication::Message::list_query())];
+                // the publisher has no objects at this point (freshly registered, or it withdrew everything at the end of the
+                // previous round): everything that reaches into another publisher's base URI must be answered with an error
+                if sclass == "registered" { for (k, m) in foreign_deltas(&pubs[other].handle, &a, "no-objects-yet") { msgs.push((k, m)); } }
                 let mut d = PublishDelta::empty(); d.add_publish(Publish::new(None, obj_uri(&me, &a), content(&format!("{me}-{a}-v1")))); d.add_publish(Publish::new(None, obj_uri(&me, &b), content(&format!("{me}-{b}-v1"))));
                 msgs.push(("publish-in-jail", publication::Message::delta(d)));
                 let mut d = PublishDelta::empty(); d.add_publish(Publish::new(None, obj_uri(&pubs[other].handle, "intruder.cer"), content("intruder")));
@@ -830,8 +843,8 @@ fn scenario(args: &Args, dir: &std::path::Path, out: &mut Out, ex: &mut Extra) {
                 msgs.push(("update", publication::Message::delta(d)));
                 let mut d = PublishDelta::empty(); d.add_withdraw(Withdraw::new(None, obj_uri(&me, &b), content(&format!("{me}-{b}-v1")).to_hash()));
                 msgs.push(("withdraw", publication::Message::delta(d)));
-                let mut d = PublishDelta::empty(); d.add_withdraw(Withdraw::new(None, obj_uri(&pubs[other].handle, &a), content(&format!("{}-{a}-v2", pubs[other].handle)).to_hash()));
-                msgs.push(("withdraw-other-publishers-object", publication::Message::delta(d)));
+                // ... and likewise while it has objects of its own
+                for (k, m) in foreign_deltas(&pubs[other].handle, &a, "with-objects") { if k != "publish-in-other-jail" { msgs.push((k, m)); } }
                 msgs.push(("empty-delta", publication::Message::delta(PublishDelta::empty())));
                 msgs.push(("reply-as-request", publication::Message::success()));
                 for (kind, m) in msgs {
@@ -851,6 +864,23 @@ fn scenario(args: &Args, dir: &std::path::Path, out: &mut Out, ex: &mut Extra) {
             let m = publication::Message::list_query();
             let sk = pubs[0].id.clone();
             if let Some(bytes) = sign8181(&w, m.clone(), &sk) { rpre = case8181(&mut w, out, &rpre, "nobody", &bytes, &m, &sk, None, &stream, ver0); }
+        }
+        // every publisher withdraws all it has (one valid delta built from what the server lists for it) and then, with
+        // nothing published any more, reaches into its neighbour's base URI again
+        for pi in 0..n {
+            let me = pubs[pi].handle.clone();
+            let other = (pi + 1) % n;
+            let sk = pubs[pi].id.clone();
+            let mut d = PublishDelta::empty();
+            if let Ok(l) = w.sys.krill.repo_manager().list(&publisher_handle(&me)) { for el in l.elements() { d.add_withdraw(Withdraw::new(None, el.uri().clone(), *el.hash())); } }
+            let mut batch: Vec<(publication::Message, IdKey)> = vec![(publication::Message::delta(d), sk.clone())];
+            for (_k, m) in foreign_deltas(&pubs[other].handle, &format!("a{round}.cer"), "withdrew-everything") { batch.push((m, sk.clone())); }
+            batch.push((publication::Message::list_query(), sk.clone()));
+            let signed = par_sign8181(&w, &batch);
+            for ((m, sk), bytes) in batch.iter().zip(signed) {
+                let Some(bytes) = bytes else { continue };
+                rpre = case8181(&mut w, out, &rpre, &me, &bytes, m, sk, None, "B-emptied", ver0);
+            }
         }
         if round == 0 {
             // publisher identity change = remove + add with a new ID certificate
